@@ -24,7 +24,7 @@ from harness import gamma as G
 from harness.common import NCPU, MachineryError, pmap
 
 SHAPE = {"Config_config_tbl": ("Config", "config_tbl"), "FooBar_foo_bar": ("FooBar", "foo_bar"), "node_node": ("node", "node"),
-         "Other_other_tbl": ("Other", "other_tbl"), "Xy_xy": ("Xy", "xy")}
+         "Other_other_tbl": ("Other", "other_tbl"), "Xy_xy": ("Xy", "xy"), "Pet_pet_tbl": ("Pet", "pet_tbl"), "Label_label": ("Label", "label")}
 CLAUSE_FINDING = {"Serialisable": "openapi_inferred_pk_not_serialisable", "Closed": "openapi_key_titlecase",
                   }
 
@@ -189,7 +189,7 @@ def direct_emitter_cases(run):
     i = {"doc": "one", "params": [{"typ": "int", "def": "absent", "doc": "plain"}, {"typ": "str", "def": "str", "doc": "plain"}],
          "ret": {"typ": "none", "def": "absent", "doc": "absent"}}
     n = 0
-    for name in ("Config", "FooBar", "node"):
+    for name in ("Config", "FooBar", "node", "Pet", "Label"):
         for crud in ("C", "R", "D", "CR", "CD", "RD", "CRD"):
             for prefix in ("/api", "/v1/things"):
                 ir = g.iface(i, 0, name=name)
@@ -228,7 +228,7 @@ def _check(run, replay, work):
     run.assumptions += ["models are 3-column SQLAlchemy classes emitted by the real emitter; sqlalchemy itself is not imported"]
     quick = run.tier == "quick"
     run.tlc("OpenApi", "MC_OpenApi_ideal.cfg", constants={"MaxModels": 3}, workers=4, timeout=900)
-    r = run.tlc("OpenApi", "MC_OpenApi_dump.cfg", shards=5, timeout=900,
+    r = run.tlc("OpenApi", "MC_OpenApi_dump.cfg", shards=7, timeout=900,
                 constants={"MaxModels": 2 if quick else 3, "Enabled": conv.enabled_constant(run)})
     cases = r.printed
     missing = sorted(set(run.known) - {d for c in cases for d in c["devs"]})
